@@ -1346,6 +1346,22 @@ def c01(ctx):
                    "emitted": sql[:3000], "composed": _txt(p[1][1:])[:3000],
                    "read_back_as": _txt(p[2][1:])[:3000] if p[0] == "mismatch" else "(rejected by the statement grammar)"}
             classify(rep, classes, "a composed part is missing, duplicated, moved or the text is not a statement")
+    # C: the builder methods themselves, call by call against the functional model the C01_api_* laws are about
+    live, tail, diffs = api_correspondence(ctx, 4000 if ctx.quick() else 40000)
+    if diffs:
+        sub = diffs[:40]
+        rend = corr.model_answers([f"(apirender {tail(s_)})" for s_, _ in sub])
+        for (s_, a), m in zip(sub, rend):
+            r = s_.get("render")
+            if r is None or m in ("NONE", "DECODEFAIL"):
+                continue
+            o = corr.impl_obs(r)
+            if o != m:
+                ctx.violation("a builder call composes something else than the statement that is emitted after it",
+                              {"prog": s_["prog"][-3000:], "type": s_["rtype"], "method": s_["method"],
+                               "emitted": corr.decode_obs(o), "composed (model of the call)": corr.decode_obs(m)})
+                break
+    ev += len(live)
     for kid, rep in sorted(known_hit.items()):
         ctx.known.append(f"{kid} e.g. {rep['prog'][:300]} is emitted as {rep['emitted'][:300]!r}")
     if dup[0]:
@@ -1358,9 +1374,53 @@ def c01(ctx):
                        "statement reader of Pg/Stmt.v and compared with the intended clause tree. B: reflection-generated and "
                        "grammar-shaped API programs; the clause tree built from the builder records (Model/C01Eval.v) is compared "
                        "with the reading of the emitted text, nested statements included; compositions lacking a mandatory part "
-                       "or with empty operand lists are outside the quantifier. non-trivial = distinct statements read back equal")
+                       "or with empty operand lists are outside the quantifier. C: histories of builder calls from the entry points and "
+                       "from generated statements; the model's result of every call (Model/Api.v) equals the implementation's. "
+                       "non-trivial = distinct statements read back equal")
     ctx.cov["samples"] = samples(icases)
 
+
+
+# ------------------------------------------------------------------------------------ API model (Model/Api.v)
+
+def api_correspondence(ctx, n):
+    """Histories of builder calls (entry points included) applied through reflection; the model's result of every
+    call (Model/Api.v, extracted) must equal the implementation's, structurally.  Returns (live steps, requests tail
+    per step, diffs) for the property-specific search."""
+    steps, rc, o = special_mode_raw(ctx, "api", ["-n", str(n), "-depth", "2"])
+    ctx.obligation("API harness run", rc == 0 and bool(steps), o[-1500:])
+    live = [s for s in steps if not s.get("skip")]
+    skipped = Counter(s["method"] for s in steps if s.get("skip"))
+
+    def tail(s):
+        return f"{corr.hexs(s['rtype'])} {corr.hexs(s['method'])} {s['recv']} ({' '.join(s['args'] or [])})"
+    ans = corr.model_answers([f"(api {tail(s)} {s['result']})" for s in live])
+    diffs, unmod, dfail, agreed_panics = [], [], [], 0
+    for s, a in zip(live, ans):
+        if a == "API ok":
+            continue
+        if a == "API none":
+            if s["result"] == "panic":
+                agreed_panics += 1
+            else:
+                unmod.append(s)
+        elif a.startswith("API diff"):
+            diffs.append((s, a))
+        else:
+            dfail.append((s, a))
+    ctx.obligation("API model: every recorded builder call decodes into the model", not dfail,
+                   json.dumps([{"prog": s["prog"][-600:], "answer": a} for s, a in dfail[:3]]))
+    ctx.obligation("API model: every method applied by the harness has a handler in Model/Api.v", not unmod,
+                   json.dumps([{"type": s["rtype"], "method": s["method"], "prog": s["prog"][-600:]} for s in unmod[:3]]))
+    ctx.obligation("API model: the model's result of every builder call equals the implementation's (all fields)", not diffs,
+                   json.dumps([{"type": s["rtype"], "method": s["method"], "prog": s["prog"][-600:]} for s, _ in diffs[:3]]))
+    ctx.cov["api_steps_compared"] = len(live)
+    ctx.cov["api_methods_distinct"] = len({(s["rtype"], s["method"]) for s in live})
+    ctx.cov["api_entry_point_steps"] = sum(1 for s in live if s["rtype"] == "qrb")
+    ctx.cov["api_construction_panics_agreed"] = agreed_panics
+    ctx.cov["api_methods_not_modelled"] = dict(skipped)
+    ctx.cov["traces_validated_against_impl"] = ctx.cov.get("traces_validated_against_impl", 0) + len(live) - len(diffs) - len(unmod) - len(dfail)
+    return live, tail, diffs
 
 # ------------------------------------------------------------------------------------ C02
 
@@ -1498,6 +1558,25 @@ def c20(ctx):
     bad = [c for c, a in zip(cases, answers) if a != "T"]
     ctx.obligation("every generated API value satisfies wfe (hypothesis of C20_no_panic)", not bad,
                    json.dumps([{"prog": c["prog"]} for c in bad[:3]]))
+    # the builder API: model vs implementation call by call, and the conclusion of C20_reachable_no_panic on the
+    # implementation: no call whose receiver and arguments meet the theorem's hypotheses yields a value that panics
+    live, tail, diffs = api_correspondence(ctx, 6000 if ctx.quick() else 60000)
+    hyp = corr.model_answers([f"(apihyp {tail(s)})" for s in live])
+    n_hyp = n_nohyp_panic = 0
+    for s_, h in zip(live, hyp):
+        rp = (s_.get("render") or {}).get("panic")
+        ev += 1
+        if h == "T":
+            n_hyp += 1
+            # (a panic inside the builder call itself, e.g. Select().As("x") on an empty select list, constructs no
+            # value and is outside the property: the model answers None there and the counts are in the coverage)
+            if rp:
+                ctx.violation("a builder call on a well-formed receiver with well-formed arguments yields a value whose rendering panics",
+                              {"prog": s_["prog"][-3000:], "type": s_["rtype"], "method": s_["method"], "panic": rp})
+        elif rp:
+            n_nohyp_panic += 1
+    ctx.cov["api_steps_meeting_hypotheses"] = n_hyp
+    ctx.cov["api_steps_with_nil_input_that_panic"] = n_nohyp_panic
     ctx.cov["evaluations"] = ev
     ctx.cov["distinct_nontrivial"] = len({c["dump"] for c in cases})
     ctx.cov["wfe_checked_values"] = len(cases)
@@ -1507,7 +1586,10 @@ def c20(ctx):
                        "distinct = distinct value dumps")
     ctx.cov["samples"] = samples(cases)
     ctx.assumptions.append("partial: stack exhaustion and allocation failure of the Go runtime are not modelled; "
-                           "reachable => wfe is checked on generated values, not yet proved over API histories")
+                           "reachable => wfe is proved for the statement builders (Model/Api.v: entry points and every method "
+                           "of the SELECT / INSERT / UPDATE / DELETE builder families except ApplyIf, ApplySelectJson, AppendWith "
+                           "and the WITH builders); for the expression constructors (fn package, operators) it is checked on "
+                           "generated values only")
 
 
 def baseline_off():
